@@ -695,6 +695,20 @@ func (s *sim) orphanDoubleSpends() {
 			rivals = append(rivals, d)
 		}
 	}
+	// two (or three) orphans waiting for the same output of P that will all FAIL when P arrives: only the
+	// first one the implementation tries is removed, the others stay orphans
+	if r.Chance(40, 100) {
+		for i := 0; i < 2+r.Intn(2); i++ {
+			if d := s.txFrom([][2]int{{P.id, 1}}, false, 1+r.Intn(2), 5000); d != nil {
+				d.ins[0].kind = 'b'
+				delete(s.u.hashID, *d.tx.Hash())
+				s.u.build(d)
+				s.seenHash[*d.tx.Hash()] = true
+				d.fee, d.vsize, d.ssize, d.size, d.bits = s.u.facts(d, 2, s.pol.minRelayFee)
+				rivals = append(rivals, d)
+			}
+		}
+	}
 	var kids []*txDef
 	for _, rv := range rivals {
 		if r.Bool() {
